@@ -1,2 +1,13 @@
-(* C04 -- placeholder while the proofs are being built *)
-From Verif Require Import Base.GoInt Thrift.Model.
+(* C04 -- thrift: Unmarshal(Marshal(v)) == v for the binary and compact protocols.
+   Model: Thrift/Model.v (hand-written, tied by correspondence on random struct types). *)
+From Verif Require Import Base.GoInt Thrift.Model Thrift.Spec Thrift.ProofsB.
+
+(* for both protocols (strict and non-strict binary differ only in message headers, which the struct codec does not
+   use), every supported struct type (field ids in any order and spacing, required/optional/enum, bools in nested and
+   pointer positions, lists, sets, maps, nested and pointer-to structs) and every value whose required fields are set *)
+Theorem t_roundtrip : t_roundtrip_statement.
+Proof. exact ProofsB.t_roundtrip. Qed.
+
+(* the two protocols decode each other's logical content to the same value *)
+Theorem t_cross_protocol : t_cross_protocol_statement.
+Proof. exact ProofsB.t_cross_protocol. Qed.
